@@ -560,7 +560,10 @@ def expect_simple(s, m, nv):
         if sh[-1] != nv:
             return REJECT
         tgt = list(n) + [nv]
-        if len(sh) > len(tgt) or any(a != b and a != 1 for a, b in zip(sh, tgt[len(tgt) - len(sh):])):
+        she = list(sh)
+        while len(she) > len(tgt) and she[0] == 1:      # numpy drops excess leading axes of length 1
+            she = she[1:]
+        if len(she) > len(tgt) or any(a != b and a != 1 for a, b in zip(she, tgt[len(tgt) - len(she):])):
             return REJECT
         return UNSPEC        # numpy broadcasting of a partial shape: the property does not speak about it
     if k == "fun":
@@ -695,6 +698,104 @@ def pick_points(rng, m, exact):
     return pts
 
 
+def samesize_shapes(n, nv):
+    """shapes with the element count of a valid array but another shape"""
+    n = list(n)
+    P = math.prod(n)
+    tails = [[nv]] if nv > 1 else [[], [1]]
+    out = []
+    for perm in set(itertools.permutations(n)):
+        for t in tails:
+            out.append(list(perm) + t)
+        if nv > 1:
+            out.append([nv] + list(perm))
+    for t in tails:
+        out.append([P] + t)
+        out.append([1] + n + t)
+        out.append([1, 1] + n + t)
+        for a in range(len(n) - 1):
+            out.append(n[:a] + [n[a] * n[a + 1]] + n[a + 2:] + t)
+    out.append([P * nv])
+    if nv > 1:
+        out.append(n[:-1] + [n[-1] * nv])
+        out.append(n + [1, nv])
+        out.append(n + [nv, 1])
+    valid = [n + [nv]] + ([n] if nv == 1 else [])
+    uniq = []
+    for sh in out:
+        if sh not in valid and sh not in uniq and sh != [nv]:
+            uniq.append(sh)
+    return uniq
+
+
+def seq_data(size, dtype):
+    if dtype == "bool":
+        return [[S((j * 7 // 3) % 2), S(0)] for j in range(size)]
+    if dtype == "complex":
+        return [[S(j + 1), S(-j)] for j in range(size)]
+    return [[S(j + 1), S(0)] for j in range(size)]
+
+
+def gen_derived(rng, tier):
+    """a mesh that is used, then transformed in place; values are assigned / sampled afterwards"""
+    nd = rng.choice([1, 2, 2, 2, 3, 3])
+    path = rng.choice(["mesh", "mesh", "mesh", "region", "field"])
+    while True:
+        m = gen_mesh(rng, tier, nd=nd, exact=True, with_subs=(path != "region"), maxcells=60)
+        _, _, cell = geom(m)
+        if nd == 1 or len(set(cell)) == nd and len(set(m["n"])) > 1:
+            break
+    lo, hi, cell = geom(m)
+    ops = ["translate", "scale"] + (["rotate90", "rotate90", "rotate90"] if nd > 1 else [])
+    if path == "field":
+        ops = ["rotate90"] if nd > 1 else ["translate"]
+        if nd == 1:
+            path = "mesh"
+    o = rng.choice(ops)
+    if o == "rotate90":
+        a1, a2 = rng.sample(range(nd), 2)
+        ref = None if rng.random() < 0.5 else [S(l + F(rng.randint(-8, 8), 2)) for l in lo]
+        op = dict(op="rotate90", ax=[a1, a2], k=rng.choice([1, 1, 3, -1, 2, 5, 4, -3]), ref=ref)
+    elif o == "scale":
+        if rng.random() < 0.5:
+            fac = S(rng.choice([F(2), F(1, 2), F(3), F(-1), F(-2), F(3, 2), F(-1, 2)]))
+        else:
+            fac = [S(rng.choice([F(2), F(1, 2), F(3), F(-1), F(-2), F(1)])) for _ in range(nd)]
+        ref = None if rng.random() < 0.5 else [S(l + F(rng.randint(-8, 8), 2)) for l in lo]
+        op = dict(op="scale", factor=fac, ref=ref)
+    else:
+        op = dict(op="translate", v=[S(F(rng.randint(-40, 40), 4)) for _ in range(nd)])
+    nv, dtype = gen_nv_dtype(rng)
+    if dtype in ("int", "bool") or path == "field":
+        dtype = "float"
+    if path == "field":
+        nv = 1
+    # the specification assigned afterwards (nothing in it depends on n)
+    r = rng.random()
+    names = [sb[0] for sb in m["subs"]]
+    if names and r < 0.45:
+        items = []
+        for j, nm in enumerate(names):
+            if rng.random() < 0.8:
+                if rng.random() < 0.5:
+                    items.append([nm, dict(k="fun", f=gen_fun(rng, nd, nv, dtype), style=0, cls="fun")])
+                else:
+                    items.append([nm, dict(k="arr", sh=[nv], data=[gen_val(rng, dtype) for _ in range(nv)],
+                                           cls="vec", py="tuple")])
+        d = rng.choice([None, "fun", "vec"])
+        if d == "fun":
+            d = dict(k="fun", f=gen_fun(rng, nd, nv, dtype), style=0, cls="fun")
+        elif d == "vec":
+            d = dict(k="arr", sh=[nv], data=[gen_val(rng, dtype) for _ in range(nv)], cls="vec", py="tuple")
+        spec = dict(k="dict", items=items, default=d)
+    elif r < 0.8:
+        spec = dict(k="fun", f=gen_fun(rng, nd, nv, dtype), style=rng.randint(0, 2), cls="fun")
+    else:
+        spec = dict(k="field-late", cls="field-same")      # source field built on the lattice read back
+    return dict(mesh=m, path=path, op=op, nv=nv, dtype=dtype, spec=spec, dseed=rng.randint(0, 10 ** 9),
+                use=rng.sample(["cell", "i2p", "p2i", "iter", "field", "dV"], rng.randint(1, 4)))
+
+
 def generate(rng, tier):
     N = 60 if tier == "quick" else 420
     cases = []
@@ -743,6 +844,30 @@ def generate(rng, tier):
                             kind=rng.choice(["badlen", "badshape", "const-nv", "fun-len", "bad", "field-bad"]))
         cases.append(dict(kind="assign", mesh=m, nv=nv, dtype=dtype, s0=s0, s1=s1,
                           via=rng.choice(["setter", "update"])))
+    # -- arrays with the right element count but another shape, at all three entry points
+    for k in range(N // 3):
+        while True:
+            m = gen_mesh(rng, tier, nd=rng.choice([1, 2, 2, 3, 3]), exact=True, maxcells=40)
+            if len(m["n"]) == 1 or len(set(m["n"])) > 1:
+                break
+        nv = rng.choice([1, 1, 1, 2, 3])
+        dtype = rng.choice(["float", "float", "int", "complex", "bool"])
+        shapes = samesize_shapes(m["n"], nv)
+        rng.shuffle(shapes)
+        for sh in shapes[:5]:
+            s1 = dict(k="arr", sh=sh, data=seq_data(math.prod(sh), dtype), cls="samesize",
+                      py=rng.choice(["ndarray", "ndarray", "list"]))
+            s0 = gen_simple(rng, m, nv, dtype, kind=rng.choice(["arr", "vec"]))
+            cases.append(dict(kind="init", mesh=m, nv=nv, dtype=dtype, spec=s1, via="ctor"))
+            for via in ("setter", "update"):
+                cases.append(dict(kind="assign", mesh=m, nv=nv, dtype=dtype, s0=s0, s1=s1, via=via))
+    # -- derived meshes: used, transformed in place, then assigned to and sampled
+    for k in range(N * 2):
+        d = gen_derived(rng, tier)
+        cases.append(dict(kind="derived", **d))
+        for j in range(2):
+            cases.append(dict(kind="derived-sample", t=[S(F(rng.randint(0, 999), 1000)) for _ in d["mesh"]["n"]],
+                              u=[S(F(rng.randint(15, 85), 100)) for _ in d["mesh"]["n"]], **d))
     # -- sampling
     for k in range(N * 2):
         exact = rng.random() < 0.8
@@ -828,8 +953,157 @@ def pt(m, p):
     return xs[0] if len(m["n"]) == 1 and len(xs) == 1 else tuple(xs)
 
 
+def derive(c):
+    """build the mesh, use it, transform it in place; -> (status, mesh object, field or None, mesh description
+    read back from the transformed mesh)"""
+    import random as _random
+    m0 = c["mesh"]
+    mesh = build_mesh(m0)
+    nd = len(m0["n"])
+    dims = list(mesh.region.dims)
+    f0 = None
+    for u in c["use"]:
+        if u == "cell":
+            _ = mesh.cell
+        elif u == "dV":
+            _ = mesh.dV
+        elif u == "i2p":
+            _ = mesh.index2point(tuple(0 for _ in range(nd)))
+        elif u == "p2i":
+            _ = mesh.point2index(mesh.region.center)
+        elif u == "iter":
+            _ = list(mesh)
+        elif u == "field":
+            _ = df.Field(mesh, nvdim=1, value=lambda p: 1.0)
+    if c["path"] == "field":
+        f0 = df.Field(mesh, nvdim=1, value=lambda p: float(np.sum(p)))
+    op = c["op"]
+    ref = None if op.get("ref") is None else [fl(x) for x in op["ref"]]
+
+    def apply():
+        if op["op"] == "rotate90":
+            tgt = f0 if c["path"] == "field" else mesh
+            tgt.rotate90(dims[op["ax"][0]], dims[op["ax"][1]], k=op["k"], reference_point=ref, inplace=True)
+        elif op["op"] == "scale":
+            fac = fl(op["factor"]) if isinstance(op["factor"], str) else [fl(x) for x in op["factor"]]
+            tgt = mesh.region if c["path"] == "region" else mesh
+            tgt.scale(fac, reference_point=ref, inplace=True)
+        else:
+            tgt = mesh.region if c["path"] == "region" else mesh
+            tgt.translate([fl(x) for x in op["v"]], inplace=True)
+    st, err = attempt(apply)
+    if st != "ok":
+        return st, err, None, None
+    lo = [F(float(x)) for x in np.atleast_1d(mesh.region.pmin)]
+    hi = [F(float(x)) for x in np.atleast_1d(mesh.region.pmax)]
+    n = [int(x) for x in np.atleast_1d(mesh.n)]
+    cellq = [(h - l) / k for l, h, k in zip(lo, hi, n)]
+    subs = []
+    for name, sr in mesh.subregions.items():
+        slo = [F(float(x)) for x in np.atleast_1d(sr.pmin)]
+        shi = [F(float(x)) for x in np.atleast_1d(sr.pmax)]
+        a0 = [int(round((x - l) / cq)) for x, l, cq in zip(slo, lo, cellq)]
+        a1 = [int(round((x - l) / cq)) for x, l, cq in zip(shi, lo, cellq)]
+        subs.append([name, [S(x) for x in slo], [S(x) for x in shi], a0, a1])
+    m1 = dict(exact=False, p1=[S(x) for x in lo], p2=[S(x) for x in hi], n=n,
+              tf=S(F(float(mesh.region.tolerance_factor))), dims=m0.get("dims"), subs=subs,
+              scale=S(max([abs(x) for x in lo + hi] + [F(1)])))
+    spec = c["spec"]
+    if spec["k"] == "field-late":
+        r = _random.Random(c["dseed"])
+        e0 = [r.randint(0, 1) for _ in n]
+        e1 = [r.randint(0, 1) for _ in n]
+        slo = [F(float(l) - e * float(cq)) for l, e, cq in zip(lo, e0, cellq)]
+        shi = [F(float(h) + e * float(cq)) for h, e, cq in zip(hi, e1, cellq)]
+        sn = [k + a + b for k, a, b in zip(n, e0, e1)]
+        sm = dict(exact=False, p1=[S(x) for x in slo], p2=[S(x) for x in shi], n=sn, tf=m1["tf"],
+                  dims=m1["dims"], subs=[])
+        spec = dict(k="field", mesh=sm, nv=c["nv"], mode="same", cls="field-same",
+                    data=[gen_val(r, c["dtype"]) for _ in range(math.prod(sn) * c["nv"])])
+    return "ok", mesh, f0, (m1, spec)
+
+
+def run_derived(c, rec):
+    nv, dtype = c["nv"], c["dtype"]
+    st, mesh, f0, rest = derive(c)
+    op = c["op"]
+    cls = f'{c["path"]}/{op["op"]}/{op.get("k", "")}/{c["spec"].get("cls", "dict")}'
+    if st != "ok":
+        # whether a transformation is accepted is C13's business
+        rec.update(obs=dict(err=mesh, stage="transform"), coq=None, key=f'{c["kind"]}/{cls}/transform-rejected')
+        return rec
+    m1, spec = rest
+    n = m1["n"]
+    lo, hi, cell = geom(m1)
+    scale = spec_scale(spec, m1)
+    # the lattice the mesh reports: cell = edges / n
+    cf = [float(x) for x in np.atleast_1d(mesh.cell)]
+    if any(abs(F(x) - cq) > F(1, 10 ** 9) * cq for x, cq in zip(cf, cell)):
+        rec["oracle"].append("cell-is-not-edges-over-n")
+    val = py_spec(spec, dtype)
+    if f0 is not None:
+        stf, fld = attempt(lambda: (f0.update_field_values(val), f0)[1])
+    else:
+        stf, fld = attempt(lambda: df.Field(mesh, nvdim=nv, value=val, dtype=DT[dtype]))
+    e = expect(spec, m1, nv)
+    if c["kind"] == "derived":
+        if stf == "ok":
+            obs = dict(array=enc_arr(fld.array), n=n)
+            coq_obs = f"(Some {cvl(obs['array'])})"
+            if e == REJECT:
+                rec["oracle"].append("invalid-spec-accepted")
+            elif e != UNSPEC:
+                rec["oracle"] += check_array(False, scale, m1, nv, e, fld.array)
+        else:
+            obs = dict(err=fld)
+            coq_obs = "None"
+            if e != REJECT and e != UNSPEC:
+                rec["oracle"].append("valid-spec-rejected")
+        rec["case"] = dict(c, derived_mesh=m1)
+        rec.update(obs=obs, coq=f'CInit false {g_q(scale)} {mesh_coq(m1)} {g_nat(nv)} {spec_coq(spec)} {coq_obs}',
+                   key=f'derived/{len(n)}/{nv}/{cls}/{stf}')
+        return rec
+    # derived-sample
+    if stf != "ok":
+        if e != REJECT and e != UNSPEC:
+            rec["oracle"].append("valid-spec-rejected")
+        rec.update(obs=dict(err=fld, stage="assign"), coq=None, key=f'derived-sample/{cls}/assign-rejected')
+        return rec
+    idx = [min(k - 1, int(F(t) * k)) for t, k in zip(c["t"], n)]
+    p = [F(float(l) + (j + float(F(u))) * float(cq)) for l, j, u, cq in zip(lo, idx, c["u"], cell)]
+    pp = [S(x) for x in p]
+    sts, v = attempt(lambda: fld(pt(m1, pp)))
+    if sts == "ok":
+        obs = dict(v=enc_arr(v), p=pp)
+        coq_obs = f"(Some {cvl(obs['v'])})"
+        got = np.asarray(v)
+        if got.shape != (nv,) or not np.array_equal(got, fld.array[tuple(idx)]):
+            rec["oracle"].append("sample-not-the-containing-cell")
+    else:
+        obs = dict(err=v, p=pp)
+        coq_obs = "None"
+        rec["oracle"].append("inside-point-rejected")
+    rec["case"] = dict(c, derived_mesh=m1)
+    rec.update(obs=obs, coq=f'CSample false {g_q(scale)} {mesh_coq(m1)} {g_nat(nv)} {spec_coq(spec)} '
+                            f'{g.ql(pp)} {coq_obs}',
+               key=f'derived-sample/{len(n)}/{nv}/{cls}/{sts}')
+    return rec
+
+
+def g_q(x):
+    return g.q(x)
+
+
+def g_nat(x):
+    return g.nat(x)
+
+
 def run_case(c):
     kind = c["kind"]
+    if kind in ("derived", "derived-sample"):
+        m0 = c["mesh"]
+        rec = dict(kind=kind, case=c, oracle=[], tags=[], size=len(m0["n"]) + sum(m0["n"]) + c["nv"])
+        return run_derived(c, rec)
     m, nv, dtype = c["mesh"], c["nv"], c["dtype"]
     exact = m["exact"]
     rec = dict(kind=kind, case=c, oracle=[], tags=[], size=len(m["n"]) + sum(m["n"]) + nv)
@@ -1028,6 +1302,6 @@ def stats(records):
         rejected = "err" in o or o.get("ok") is False
         k = r["kind"] + ("/rejected" if rejected else "/ok")
         out[k] = out.get(k, 0) + 1
-        reg = "exact" if r["case"]["mesh"]["exact"] else "scale"
+        reg = "scale" if (r["kind"].startswith("derived") or not r["case"]["mesh"]["exact"]) else "exact"
         out["regime/" + reg] = out.get("regime/" + reg, 0) + 1
     return out
